@@ -268,6 +268,63 @@ def observe(reaction, couplings: bool, flags, dyn=()) -> dict:
     for name, bid in dyn:
         builder.dynamics.assign(name, builders()[bid])
     model = builder.formulate()
+    return extract(model, builder, reaction)
+
+
+def observe_after_history(reaction, couplings: bool, flags, rng) -> dict:
+    """The same configuration reached through a HISTORY on one builder object: formulate, toggle
+    use_helicity_couplings / naming flags / lineshapes back and forth with formulate() calls in between, return to the
+    configuration, formulate again. `history_equal` tells whether the last model equals the first one and a fresh one."""
+    import ampform
+    from ampform.dynamics.builder import create_non_dynamic
+    from tools.corr.C03_lib import make_builder
+
+    def snapshot(m):
+        return (list(m.amplitudes.items()), list(m.components.items()), m.intensity,
+                [(k, v) for k, v in m.parameter_defaults.items()])
+
+    builder = make_builder(reaction, flags, use_helicity_couplings=couplings)
+    naming = builder.naming
+    first = builder.formulate()
+    snap_first = snapshot(first)
+    names = sorted({t.states[e].particle.name for t in reaction.transitions for e in t.topology.intermediate_edge_ids})
+    steps = []
+    for _ in range(3):
+        op = rng.choice(["couplings", "parent", "child", "lineshape", "again"])
+        steps.append(op)
+        if op == "couplings":
+            builder.config.use_helicity_couplings = not builder.config.use_helicity_couplings
+        elif op == "parent":
+            naming.insert_parent_helicities = not naming.insert_parent_helicities
+        elif op == "child":
+            naming.insert_child_helicities = not naming.insert_child_helicities
+        elif op == "lineshape" and names:
+            builder.dynamics.assign(rng.choice(names), builders()["bw"])
+        builder.formulate()
+    # back to the configuration
+    builder.config.use_helicity_couplings = couplings
+    naming.insert_parent_helicities = flags[0]
+    naming.insert_child_helicities = flags[1]
+    for n in names:
+        builder.dynamics.assign(n, create_non_dynamic)
+    last = builder.formulate()
+    fresh = make_builder(reaction, flags, use_helicity_couplings=couplings).formulate()
+    obs = extract(last, builder, reaction)
+    obs["history"] = steps
+    obs["history_equal"] = {
+        "first_model_unchanged": snapshot(first) == snap_first,
+        "last_equals_first": snapshot(last) == snap_first,
+        "last_equals_fresh": snapshot(last) == snapshot(fresh),
+    }
+    return obs
+
+
+def extract(model, builder, reaction) -> dict:
+    import sympy as sp
+
+    from ampform.helicity import _freeze, _perform_combinatorics
+    from ampform.sympy import PoolSum
+
     obs = {"model": model, "builder": builder}
     obs["sym"] = [sorted(graph_string(_freeze(g)) for g in _perform_combinatorics(t)) for t in reaction.transitions]
     amps = {}
